@@ -99,7 +99,7 @@ func (r *raftRun) poolNodes(n int, fresh bool) ([]*RNode, error) {
 		for i := 0; i < need; i++ {
 			go func(i int) {
 				x, err := NewRNode(fmt.Sprintf("S%d-%d", i, time.Now().UnixNano()%1000000), false, "", StartMs)
-				if err == nil && !waitFor(30*time.Second, x.IsLeader) {
+				if err == nil && !raftWaitFor(30*time.Second, x.IsLeader) {
 					err = fmt.Errorf("single node did not become leader")
 				}
 				ch <- res{x, err}
